@@ -22,8 +22,20 @@ def cases_for(ctx, focus_limits):
     cases = nontrivial = 0
     seen = set()
     for i in range(n):
-        om = gen_omen.gen_omen(rng, ngram=rng.choice([2, 3]), nletters=2, maxlen_extra=rng.choice([1, 2]))
-        spec = gen_rulesets.gen_ruleset(rng, omen=om, max_vals=3, max_pos=4)
+        if i % 5 == 4:
+            # a Markov structure over a model with transitions at the top levels (9 / 10), expanded at levels above 10
+            import itertools
+            om = gen_omen.gen_omen(rng, ngram=2, nletters=2, maxlen_extra=rng.choice([1, 2, 3]), levels=rng.choice([[10], [0, 10], [9, 10]]))
+            lv = set()
+            for ln_ in range(om['ngram'], len(om['ln']) + 1):
+                for t_ in itertools.product(om['alphabet'], repeat=ln_):
+                    lv.update(gen_omen.level_of(om, ''.join(t_)))
+            high = sorted(l for l in lv if l >= 10) or sorted(lv) or [1]
+            spec = gen_rulesets.gen_ruleset(rng, omen=om, max_vals=3, max_pos=3, markov=True, markov_levels=high)
+            dist['high_level_markov'] = dist.get('high_level_markov', 0) + 1
+        else:
+            om = gen_omen.gen_omen(rng, ngram=rng.choice([2, 3]), nletters=2, maxlen_extra=rng.choice([1, 2]))
+            spec = gen_rulesets.gen_ruleset(rng, omen=om, max_vals=3, max_pos=4)
         d = common.write_ruleset(os.path.join(root, f"e{i % 20}"), spec)
         flags = {'skip_case': rng.random() < 0.2, 'skip_brute': False}
         try:
